@@ -115,6 +115,39 @@ def check_update(fx, R, fu, ft):
     d = [s for s in paths[0].fields.get(fld('lastDuration_', 'value_'), sp.Integer(0)).free_symbols if s.name == 'arg:duration'] if paths else []
     full, part = [], []
     size0 = sp.Symbol('size(this.periods_)', integer=True, nonnegative=True)
+    # paths that drop the stamp: neither the period queue nor the last stamp is touched.  Data stamps are strictly increasing with periods from 1 microsecond (quantifier): update() is stepped in integer
+    # nanoseconds on witness periods; a stamp may only be ignored if no witness period reaches that return
+    dropping = [st for st in paths if not (isinstance(st.fields.get(fld('periods_')), sym.Cont) and st.fields.get(fld('periods_')).ops)
+                and (lambda v_: v_ is None or (isinstance(v_, sp.Symbol) and v_.name == 'this.lastDuration_.value_'))(st.fields.get(fld('lastDuration_', 'value_')))]
+    if dropping:
+        from .. import mini
+        from .C20 import deep_unwrap as _du
+        pn_ = fu['params'][0]['name']
+        dropped = []
+        for per in (1000, 250000, 999999, 1000000, 5000000, 10 ** 10):
+            S_ = mini.Step(_du)
+            touched = []
+            S_.hooks['.count'] = lambda t, env: S_.ev(t[1], env)
+            S_.hooks['.load'] = lambda t, env: S_.ev(t[1], env)
+            for h_ in ('.push', '.push_back', '.emplace', '.emplace_back', '.store', '.pop', '.pop_front'):
+                S_.hooks[h_] = lambda t, env, h_=h_: touched.append(h_) or 0
+            S_.fallback = mini.inliner(fx, S_)
+            t0 = 3 * 10 ** 9 + 17
+            env_ = {pn_: t0 + per, 'this.lastDuration_': t0, 'this.lastPeriod_': 4000000, 'this.hasData_': True, 'this.rate_': 10.0, 'this.periodsSum_': 4 * 10 ** 8, 'this.windowSize_': 20}
+            try:
+                S_.call(fu['body'], env_)
+                if not any(h_.startswith(('.push', '.emplace')) for h_ in touched):
+                    dropped.append(per)
+            except mini.Unsupported:
+                pass                    # the step evaluator reached the queue handling: the stamp is not dropped before it
+        desc_ = ' && '.join(('' if c[2] else '!') + '(' + c[0] + ')' for c in dropping[0].cond)
+        if dropped:
+            R.violated('M2', 'RateMonitoring::update:stamp-dropped', 'on the path [%s] update() returns without queueing the period and without advancing the last stamp; stepping update() in integer nanoseconds, a stamp '
+                       '%s ns after the previous one takes that return (periods from 1 microsecond are inside the quantifier): the stamp is not counted towards the W+1 stamps and the rate is no longer W over the time '
+                       'spanned by the last W periods' % (desc_[:200], ', '.join(str(p_) for p_ in dropped[:3])), fx.rel(fu['loc']), 'E-STEP')
+            return
+        paths = [st for st in paths if st not in dropping]
+        R.holds('M2', 'RateMonitoring::update:no-stamp-dropped', 'a return in front of the queue is taken by none of the witness periods (1 us .. 10 s)', fx.rel(fu['loc']), 'E-STEP')
     for st in paths:
         g = [c for c in st.cond if isinstance(c[1], sp.Basic) and size0 in c[1].free_symbols]
         if len(g) != 1:
@@ -385,6 +418,41 @@ def check_timeout(fx, R, ft, cst):
                                                         ''.join('; %s = %s' % (k_.name, v_) for k_, v_ in config.items())), fx.rel(ft['loc']), 'E-ORD')
         else:
             R.holds('M3', inst, 'timeout=%s%s' % (want, ' for expected rates %s' % RATES if config else ''), fx.rel(ft['loc']), 'E-ORD')
+    # ---- the predicate in IEEE arithmetic: stamps are integer nanoseconds, the comparison is made on a double.  The body of timeout() is stepped (E-STEP: integers stay integers, every floating operation is
+    # the double operation) for heartbeats 1 ns before, exactly at and 1 ns after 0.5 s, at absolute times between 7.5 s and 5000 s (500 stamps of up to 10 s): exactly 0.5 s is not "more than 0.5 s"
+    from .. import mini
+    from .C20 import deep_unwrap as _du
+    S_ = mini.Step(_du)
+    S_.hooks['.count'] = lambda t, env: S_.ev(t[1], env)
+    S_.hooks['.load'] = lambda t, env: S_.ev(t[1], env)
+    S_.hooks['.store'] = lambda t, env: 0
+    S_.fallback = mini.inliner(fx, S_)
+    pn_ = ft['params'][0]['name']
+    ieee_bad, ieee_n, ieee_err = None, 0, None
+    starts = [7500000000 + 1702 * k_ for k_ in range(0, 1500)] + [10 ** 12 + 7 + 977 * k_ for k_ in range(200)] + [4999 * 10 ** 9 + 13 * k_ for k_ in range(200)]
+    for t0 in starts:
+        for el, want_ in ((499999999, False), (500000000, False), (500000001, True)):
+            env_ = {pn_: t0 + el, 'this.lastDuration_': t0, 'this.hasData_': True, 'this.rate_': 1.0}
+            try:
+                got_ = S_.call(ft['body'], env_)
+            except mini.Unsupported as e_:
+                ieee_err = str(e_)
+                break
+            ieee_n += 1
+            if bool(got_) != want_ and ieee_bad is None:
+                ieee_bad = (t0, el, bool(got_))
+        if ieee_err:
+            break
+    if ieee_err:
+        if not other:
+            R.undecided('M3', 'RateMonitoring::timeout:ieee', 'timeout() is not steppable in IEEE arithmetic: %s' % ieee_err)
+    elif ieee_bad:
+        R.violated('M3', 'RateMonitoring::timeout:rounded-elapsed', 'stepping timeout() in IEEE double arithmetic: with the last stamp at %d ns a heartbeat exactly %d ns later %s a timeout (the statement: more than 0.5 s, '
+                   'and earlier heartbeats change nothing).  The elapsed time is not the conversion of the exact integer difference of the two stamps: converting each absolute stamp to seconds first and subtracting '
+                   'loses the nanosecond to cancellation, so a heartbeat AT 0.5 s spuriously zeroes the rate and turns the check-up STALE' % (ieee_bad[0], ieee_bad[1], 'reports' if ieee_bad[2] else 'does not report'),
+                   fx.rel(ft['loc']), 'E-STEP')
+    else:
+        R.holds('M3', 'RateMonitoring::timeout:ieee', '%d evaluations at 0.5 s -1 ns / +0 / +1 ns for absolute times up to 5000 s agree with the exact predicate' % ieee_n, fx.rel(ft['loc']), 'E-STEP')
     # the state the predicate calls "has data" must be established by EVERY path of update(): a stamp has been seen from the first one on
     fu_ = fx.one(NS + 'RateMonitoring::update') if 'NS' in globals() else None
     if fu_ is None:
@@ -394,6 +462,10 @@ def check_timeout(fx, R, ft, cst):
             for st_ in sym.Reader(fx).run(fu_):
                 hv = st_.fields.get(fld('hasData_'))
                 desc = ' && '.join(('' if c[2] else '!') + '(' + c[0] + ')' for c in st_.cond)
+                already = any(isinstance(c[1], sp.Basic) and any(y_.name == 'this.hasData_' for y_ in c[1].free_symbols) and c[2] and
+                              (isinstance(c[1], sp.And) or c[1].is_Symbol or isinstance(c[1], (sp.Ne, sp.Eq))) for c in st_.cond)
+                if (hv is None or (isinstance(hv, sp.Symbol) and hv.name == 'this.hasData_')) and already:
+                    continue            # the path is only taken when hasData_ already holds
                 if hv is None or (isinstance(hv, sp.Symbol) and hv.name == 'this.hasData_'):
                     R.violated('M3', 'RateMonitoring::update:has-data', 'on the path [%s] update() does not set hasData_, which the timeout predicate requires: a heartbeat more than 0.5 s after a stamp seen on this '
                                'path is not reported as a timeout (no STALE report), although a data stamp has been seen' % desc, fx.rel(fu_['loc']), 'E-STATE')
@@ -445,8 +517,11 @@ def check_wiring(fx, R):
             elif st.ret != stored:
                 ok, why = False, 'evaluate returns %s but the report stores %s' % (st.ret, stored)
             elif not any(isinstance(c[1], sp.Basic) and any(s.name == 'size(this.rateMonitoring_.periods_)' for s in c[1].free_symbols) for c in st.cond):
-                ok, why = False, 'a path of evaluate() does not go through RateMonitoring::update'
-        R.check(ok, 'M4', cname + '::evaluate', why, 'check-up evaluates the rate returned by update(stamp)', fx.rel(fe['loc']), 'E-STATE')
+                ok, why = None, 'a path of evaluate() does not show the window test of RateMonitoring::update (update() has a path that returns before it: judged by M2)'
+        if ok is None:
+            R.undecided('M4', cname + '::evaluate', why)
+        else:
+            R.check(ok, 'M4', cname + '::evaluate', why, 'check-up evaluates the rate returned by update(stamp)', fx.rel(fe['loc']), 'E-STATE')
         ph = sym.Reader(fx, call_hook=hook).run(fh)
         okh, whyh = len(ph) == 2, 'heartBeatCallback has %d paths' % len(ph)
         for st in ph:
